@@ -31,7 +31,8 @@ def run(patch):
     wt = os.path.join(tmp, 'wt')
     out = None
     try:
-        for rev in ('HEAD', BASE):
+        revs = ['HEAD', BASE] + subprocess.run(['git', '-C', '/repo', 'rev-list', '--max-count=40', 'HEAD'], capture_output=True, text=True).stdout.split()[1:]
+        for rev in revs:
             subprocess.run(['git', '-C', '/repo', 'worktree', 'add', '-q', '--detach', wt, rev], check=True)
             r = subprocess.run(['git', '-C', wt, 'apply', patch], capture_output=True, text=True)
             if r.returncode == 0:
@@ -47,10 +48,10 @@ def run(patch):
     return patch, out[0], out[1]
 
 
-def base_findings():
+def base_findings(rev=BASE):
     tmp = tempfile.mkdtemp(prefix='algopy-neutral-')
     wt = os.path.join(tmp, 'wt')
-    subprocess.run(['git', '-C', '/repo', 'worktree', 'add', '-q', '--detach', wt, BASE], check=True)
+    subprocess.run(['git', '-C', '/repo', 'worktree', 'add', '-q', '--detach', wt, rev], check=True)
     try:
         res = checks(wt, tmp)
     finally:
@@ -77,9 +78,10 @@ def main():
                 if rc == 0:
                     continue
                 if rev != 'HEAD':
-                    if basef is None:
-                        basef = base_findings()
-                    lines = [l for l in lines if l.split(': [', 1)[-1][:60] not in basef.get(p, set())]
+                    basef = basef or {}
+                    if rev not in basef:
+                        basef[rev] = base_findings(rev)
+                    lines = [l for l in lines if l.split(': [', 1)[-1][:60] not in basef[rev].get(p, set())]
                     if not lines:
                         continue
                 alarms.append((p, rc, lines))
